@@ -98,19 +98,60 @@ pub struct Term {
     pub buf: Buffer,
     pub caret: Caret,
     pub parser: Box<dyn BufferParser>,
+    /// the screen size the property speaks about: the size the terminal was opened with, changed only by an explicit
+    /// text-area resize request (`CallbackAction::ResizeTerminal`); NOT re-read from `terminal_state`, so that a
+    /// stream that silently changes the terminal size does not move the goal posts of the cursor oracle
+    pub exp_w: i32,
+    pub exp_h: i32,
+    /// a resize request was executed from inside a macro replay: `invoke_macro_by_id` swallows the
+    /// `ResizeTerminal` action of the replayed characters, so the request shows only as a size change at the
+    /// invoking `z` (`CSI Pn * z`, or the same inside a DCS)
+    pub resized_in_macro: bool,
+    /// encoding of the payload of the last `CallbackAction::PlayMusic` (per action: 1 note-index duration dotted /
+    /// 2 pause / 3 style) and the number of tunes handed out so far; part of the geometry hash so that the model's
+    /// music state machine (octave, length, tempo, note arithmetic) is tied to `sound.rs`
+    pub music_last: Vec<u64>,
+    pub music_tunes: u64,
+    prev: [char; 2],
+}
+
+fn music_enc(m: &ansi::sound::AnsiMusic) -> Vec<u64> {
+    use ansi::sound::{MusicAction, MusicStyle, FREQ};
+    let mut v = Vec::new();
+    for a in &m.music_actions {
+        match a {
+            MusicAction::PlayNote(f, len, dotted) => {
+                let idx = FREQ.iter().position(|x| x == f).map(|i| i as u64).unwrap_or(999);
+                v.extend([1, idx, *len as i64 as u64, *dotted as u64]);
+            }
+            MusicAction::Pause(p) => v.extend([2, *p as i64 as u64]),
+            MusicAction::SetStyle(s) => v.extend([
+                3,
+                match s {
+                    MusicStyle::Foreground => 0,
+                    MusicStyle::Background => 1,
+                    MusicStyle::Normal => 2,
+                    MusicStyle::Legato => 3,
+                    MusicStyle::Staccato => 4,
+                },
+            ]),
+        }
+    }
+    v
 }
 
 #[derive(Clone, Debug, PartialEq)]
 pub enum Outcome {
     Ok,
-    Resize,
+    Resize(i32, i32),
     Err,
     Panic(String, String),
 }
 
 impl Term {
     pub fn new(emu: Emu, w: i32, h: i32) -> Term {
-        Term { emu, buf: make_buffer(emu, w, h), caret: Caret::default(), parser: emu.parser() }
+        let (ew, eh) = if emu.fixed_grid() { (40, 24) } else { (w, h) };
+        Term { emu, buf: make_buffer(emu, w, h), caret: Caret::default(), parser: emu.parser(), exp_w: ew, exp_h: eh, resized_in_macro: false, music_last: Vec::new(), music_tunes: 0, prev: ['\0', '\0'] }
     }
     /// feed one character; panics are caught and mapped to their site
     pub fn feed(&mut self, ch: char) -> Outcome {
@@ -118,19 +159,46 @@ impl Term {
         let buf = &mut self.buf;
         let caret = &mut self.caret;
         let r = catch(std::panic::AssertUnwindSafe(|| parser.print_char(buf, 0, caret, ch)));
+        // the invoking character: `z`, or for Avatar the count byte of a repeated `z` (`^Y z <n>`)
+        let invokes = ch == 'z' || (self.emu == Emu::Avatar && self.prev == ['\x19', 'z']);
+        self.prev = [self.prev[1], ch];
+        if invokes && self.emu.ansi_family() && !matches!(r, Ok(Ok(CallbackAction::ResizeTerminal(_, _)))) {
+            let (tw, th) = (self.buf.terminal_state.get_width(), self.buf.terminal_state.get_height());
+            if (tw, th) != (self.exp_w, self.exp_h) {
+                self.exp_w = tw;
+                self.exp_h = th;
+                self.resized_in_macro = true;
+            }
+        }
         match r {
-            Ok(Ok(CallbackAction::ResizeTerminal(_, _))) => Outcome::Resize,
+            Ok(Ok(CallbackAction::ResizeTerminal(w, h))) => {
+                self.exp_w = w;
+                self.exp_h = h;
+                Outcome::Resize(w, h)
+            }
+            Ok(Ok(CallbackAction::PlayMusic(m))) => {
+                self.music_last = music_enc(&m);
+                self.music_tunes += 1;
+                Outcome::Ok
+            }
             Ok(Ok(_)) => Outcome::Ok,
             Ok(Err(_)) => Outcome::Err,
             Err(loc) => Outcome::Panic(panic_site(&loc), loc),
         }
     }
+    /// the cursor is inside the visible screen: column within 0..width-1, row within the last `height` rows of the
+    /// buffer — width/height being the size of the screen as opened / as last explicitly resized
     pub fn cursor_in_screen(&self) -> bool {
         let p = self.caret.get_position();
-        let first = self.buf.get_first_visible_line();
-        let w = self.buf.terminal_state.get_width();
-        let h = self.buf.terminal_state.get_height();
-        p.x >= 0 && p.x < w && p.y >= first && p.y < first + h
+        let first = self.exp_first_visible();
+        p.x >= 0 && p.x < self.exp_w && p.y >= first && (p.y as i64) < first as i64 + self.exp_h as i64
+    }
+    pub fn exp_first_visible(&self) -> i32 {
+        (self.buf.get_height() as i64 - self.exp_h as i64).max(0) as i32
+    }
+    /// the terminal still has the size it was opened with / last explicitly resized to
+    pub fn size_ok(&self) -> bool {
+        self.buf.terminal_state.get_width() == self.exp_w && self.buf.terminal_state.get_height() == self.exp_h
     }
     pub fn grid_ok(&self) -> bool {
         self.buf.get_width() == 40 && self.buf.get_height() == 24 && self.buf.layers[0].lines.len() <= 24 && self.buf.layers[0].get_width() == 40
@@ -192,7 +260,8 @@ impl Term {
     }
     pub fn geo_hash(&self, out: &str) -> u64 {
         let tabs = fnv(self.buf.terminal_state.get_tabs().iter().map(|t| *t as i64 as u64));
-        fnv(self.geo_ints().into_iter().map(|v| v as u64).chain([tabs]).chain(out.chars().map(|c| c as u64)))
+        let music = fnv(self.music_last.iter().copied().chain([self.music_tunes]));
+        fnv(self.geo_ints().into_iter().map(|v| v as u64).chain([tabs, music]).chain(out.chars().map(|c| c as u64)))
     }
     /// `Line::get_line_length` of the caret row of layer 0 (the oracle argument of HPA/HPR in the model)
     pub fn caret_line_len(&self) -> i32 {
@@ -255,7 +324,34 @@ impl<'a> Gen<'a> {
         }
         s
     }
+    /// a control sequence whose private marker / intermediate, final byte and parameters fit together (the DEC private
+    /// modes, the SCO / CTerm requests, rectangles, checksum, font selection, …): drawn uniformly from the table, with
+    /// the numeric slots `#` filled from the parameter values of the quantifier
+    pub fn csi_meaningful(&mut self) -> Token {
+        const TABLE: [&str; 64] = [
+            "?4h", "?6h", "?7h", "?25h", "?33h", "?35h", "?69h", "?9h", "?1000h", "?1002h", "?1006h", "?1016h", "?4l", "?6l", "?7l", "?25l", "?33l", "?69l", "?1000l",
+            "?62n", "?63;#n", "?63n", "=1n", "=2n", "=3n", "=r", "=0;#m", "=1;#m", "=2;#m", "=3;#m", "=4;#m", "=#m", "<c", "<#c", "<#;#c", "!p", "5n", "6n", "255n", "4h", "4l",
+            "1~", "2~", "3~", "4~", "5~", "0g", "3g", "5g", "2J", "3J", "2K", "0;# D", "# d", "2$w", "#;#;#;#;#$x", "#;#;#;#$z", "#;#;#;#${", "#*z", "#;#*r", "#;#;#;#;#;#*y",
+            "#;#s", "#;#;#;#r", "8;#;#t",
+        ];
+        let vals = param_values(self.w, self.h, self.huge);
+        let pat = *self.rng.pick(&TABLE);
+        let mut body = String::new();
+        for c in pat.chars() {
+            if c == '#' {
+                body.push_str(&self.rng.pick(&vals[..]).clone());
+            } else {
+                body.push(c);
+            }
+        }
+        let fin = pat.chars().last().unwrap();
+        let inter: String = pat.chars().filter(|c| "?=<! $*".contains(*c)).collect();
+        tok(&format!("CSI{}{}", inter, fin), &format!("\x1b[{}", body))
+    }
     pub fn csi(&mut self) -> Token {
+        if self.rng.chance(1, 5) {
+            return self.csi_meaningful();
+        }
         // geometry-relevant finals are weighted up
         let hot = "HfABCDjkdeEFGXPLM@STbYZsuraJK'`gtnhl~m";
         let fin = if self.rng.chance(3, 4) { *self.rng.pick(&hot.chars().collect::<Vec<_>>()) } else { *self.rng.pick(&CSI_FINALS.chars().collect::<Vec<_>>()) };
@@ -306,6 +402,26 @@ impl<'a> Gen<'a> {
         // fill the scrollback
         let n = self.rng.range(1, (self.h as i64 * 2).max(2)) as usize;
         tok("LFxN", &"\n".repeat(n))
+    }
+    /// state captured in one geometry and restored in another: save (ESC 7 / CSI s), then something that changes
+    /// the geometry (scrollback growth, scrollback drop by ED 2/3 / FF / RIS, soft reset, new margins), then restore
+    pub fn capture_restore(&mut self) -> Token {
+        let save = *self.rng.pick(&["\x1b7", "\x1b[s", "\x1b7\x1b[s"]);
+        let grow = "\n".repeat(self.rng.range(1, (self.h as i64 * 2).max(2)) as usize);
+        let mid: String = match self.rng.below(9) {
+            0 => grow,
+            1 => "\x1b[2J".into(),
+            2 => "\x1b[3J".into(),
+            3 => "\x0c".into(),
+            4 => "\x1bc".into(),
+            5 => "\x1b[!p".into(),
+            6 => format!("\x1b[{};{}r", self.rng.range(0, self.h as i64 + 1), self.rng.range(0, self.h as i64 + 1)),
+            7 => format!("{}\x1b[2J", grow),
+            _ => format!("\x1b[2J{}", grow),
+        };
+        let restore = *self.rng.pick(&["\x1b8", "\x1b[u", "\x1b8\x1b[u"]);
+        let pre = if self.rng.chance(1, 2) { "\n".repeat(self.rng.range(1, (self.h as i64 * 2).max(2)) as usize) } else { String::new() };
+        tok("capture-restore", &format!("{}{}{}{}", pre, save, mid, restore))
     }
     pub fn dcs(&mut self) -> Token {
         let id = self.rng.below(3);
@@ -445,6 +561,7 @@ impl<'a> Gen<'a> {
                         self.emu_specific(emu)
                     }
                 }
+                17 => self.capture_restore(),
                 _ => self.csi(),
             }
         } else {
@@ -458,7 +575,28 @@ impl<'a> Gen<'a> {
         }
     }
     pub fn stream(&mut self, emu: Emu, ntok: usize) -> Vec<Token> {
-        (0..ntok).map(|_| self.token(emu)).collect()
+        let toks: Vec<Token> = (0..ntok).map(|_| self.token(emu)).collect();
+        // HPA / HPR read `Line::get_line_length` of the cursor row, which the model gets as an oracle value observed
+        // *before* each top-level character.  Inside a macro replay the row may have changed since, so the model's
+        // assumption (propsd: "HPA/HPR executed from inside a macro replay read the same line length …") only holds if
+        // such sequences never get recorded into a macro: drop them while a device control string is open.
+        let mut in_dcs = false;
+        let mut out = Vec::with_capacity(toks.len());
+        for t in toks {
+            let reads_row = t.chars.len() >= 3 && t.chars[0] == '\x1b' && t.chars[1] == '[' && matches!(t.chars[t.chars.len() - 1], '\'' | 'a');
+            if in_dcs && (reads_row || t.label == "raw") {
+                continue;
+            }
+            for w in t.chars.windows(2) {
+                if w[0] == '\x1b' && w[1] == 'P' {
+                    in_dcs = true;
+                } else if w[0] == '\x1b' && w[1] == '\\' {
+                    in_dcs = false;
+                }
+            }
+            out.push(t);
+        }
+        out
     }
 }
 
@@ -505,7 +643,14 @@ pub fn parse_case(line: &str) -> Option<(Emu, i32, i32, Vec<char>, Vec<String>)>
 /// timeout) pins the case it was processing. Returns per case the worker's result lines, or Err(reason) for the
 /// case that killed/hung the worker.
 pub fn run_in_workers(prop: &str, dir: &std::path::Path, cases: &[String], timeout_s: u64) -> Vec<Result<Vec<String>, String>> {
+    run_in_workers_capped(prop, dir, cases, timeout_s, usize::MAX)
+}
+
+/// `run_in_workers` that gives up after `max_deaths` dead children: the remaining cases get `Err("skipped")`
+/// (a suffix that hangs would otherwise cost one timeout per group of the probe family)
+pub fn run_in_workers_capped(prop: &str, dir: &std::path::Path, cases: &[String], timeout_s: u64, max_deaths: usize) -> Vec<Result<Vec<String>, String>> {
     let mut results: Vec<Result<Vec<String>, String>> = Vec::with_capacity(cases.len());
+    let mut deaths = 0usize;
     let mut start = 0usize;
     let exe = std::env::current_exe().unwrap();
     let mut round = 0;
@@ -582,6 +727,13 @@ pub fn run_in_workers(prop: &str, dir: &std::path::Path, cases: &[String], timeo
             };
             results.push(Err(reason));
             start += done + 1;
+            deaths += 1;
+            if deaths >= max_deaths {
+                while results.len() < cases.len() {
+                    results.push(Err("skipped".to_string()));
+                }
+                break;
+            }
         } else {
             break;
         }
@@ -610,9 +762,18 @@ pub fn worker_loop(inp: &str, out: &std::path::Path, mut f: impl FnMut(&str, &mu
 ///   `P <i> <site> <label> <loc>`   panic (stream stops)
 ///   `C <i> <label> <x> <y> <first> <w> <h>`  cursor left the visible screen at char i (first transition only)
 ///   `G <i> <label>`                fixed-grid emulation changed size / grew a scrollback
+///   `Z <i> <label> <tw> <th> <w> <h>` the terminal size changed although no resize was requested (first time)
 ///   `T <i> <label> <ms> <lines>`   token took >= slow_ms, or line count after it exceeds h + chars consumed + 1
 ///   `S <chars> <errs> <ok-after-err> <hash>` summary, hash = rolling FNV of the per-char digests
 pub fn run_case(line: &str, slow_ms: u128, emit: &mut dyn FnMut(String)) {
+    run_case_ex(line, slow_ms, false, emit)
+}
+
+/// `run_case` with the failing-input search of C01 / C09: with `search`, the first character after which the real
+/// terminal leaves the invariant proved for the model (`probe::good_state`, i.e. `GoodSt` of Lemmas/TermStep.lean)
+/// starts a probe run — the prefix up to and including that character is extended with every probe suffix
+/// (`probe::probe_all`, records `Q …`).  On a tree that satisfies the invariant this costs one predicate per character.
+pub fn run_case_ex(line: &str, slow_ms: u128, search: bool, emit: &mut dyn FnMut(String)) {
     let Some((emu, w, h, chars, labels)) = parse_case(line) else {
         emit("BAD".into());
         return;
@@ -622,6 +783,7 @@ pub fn run_case(line: &str, slow_ms: u128, emit: &mut dyn FnMut(String)) {
     let mut after_err_ok = 0u32;
     let mut inside = true;
     let mut grid = true;
+    let mut size_same = true;
     let mut resized = false;
     let mut hash: u64 = 14695981039346656037;
     let mut tok_start = Stopwatch::start();
@@ -630,6 +792,7 @@ pub fn run_case(line: &str, slow_ms: u128, emit: &mut dyn FnMut(String)) {
     let mut items: Vec<String> = Vec::new();
     let mut mh: u64 = 14695981039346656037;
     let mut checkpoints: Vec<u64> = Vec::new();
+    let mut searched = false;
     for (i, ch) in chars.iter().enumerate() {
         let line_len = if modelled { t.caret_line_len() } else { 0 };
         if i == 0 || labels[i] != labels[i - 1] || true {
@@ -644,7 +807,7 @@ pub fn run_case(line: &str, slow_ms: u128, emit: &mut dyn FnMut(String)) {
             let (ostr, ext) = match &out {
                 Outcome::Ok => ("ok", 1),
                 Outcome::Err => ("err", 0),
-                Outcome::Resize => ("resize", 1),
+                Outcome::Resize(_, _) => ("resize", 1),
                 Outcome::Panic(_, _) => ("panic", 0),
             };
             items.push(format!("{}:{}:{}", *ch as u32, line_len, ext));
@@ -665,30 +828,27 @@ pub fn run_case(line: &str, slow_ms: u128, emit: &mut dyn FnMut(String)) {
                 return; // state after an unwinding panic is not meaningful
             }
             Outcome::Err => errs += 1,
-            Outcome::Resize => resized = true,
+            Outcome::Resize(_, _) => resized = true,
             Outcome::Ok => {
                 if errs > 0 {
                     after_err_ok += 1;
                 }
             }
         }
+        resized = resized || t.resized_in_macro;
         hash = fnv_step(hash, fnv(t.digest().bytes().map(|b| b as u64)));
         if !resized {
             let now_inside = t.cursor_in_screen();
             if inside && !now_inside {
                 let p = t.caret.get_position();
-                emit(format!(
-                    "C {} {} {} {} {} {} {}",
-                    i,
-                    labels[i],
-                    p.x,
-                    p.y,
-                    t.buf.get_first_visible_line(),
-                    t.buf.terminal_state.get_width(),
-                    t.buf.terminal_state.get_height()
-                ));
+                emit(format!("C {} {} {} {} {} {} {}", i, labels[i], p.x, p.y, t.exp_first_visible(), t.exp_w, t.exp_h));
             }
             inside = now_inside;
+            let sz = t.size_ok();
+            if size_same && !sz {
+                emit(format!("Z {} {} {} {} {} {}", i, labels[i], t.buf.terminal_state.get_width(), t.buf.terminal_state.get_height(), t.exp_w, t.exp_h));
+            }
+            size_same = sz;
         }
         if emu.fixed_grid() {
             let g = t.grid_ok();
@@ -696,6 +856,11 @@ pub fn run_case(line: &str, slow_ms: u128, emit: &mut dyn FnMut(String)) {
                 emit(format!("G {} {}", i, labels[i]));
             }
             grid = g;
+        }
+        if search && !searched && !crate::probe::good_state(&t, resized) {
+            searched = true;
+            emit(format!("Q V {} {} {}", crate::probe::short_id(emu, w, h, &chars[..=i]), i, labels[i]));
+            crate::probe::probe_all(emu, w, h, &chars[..=i], emit);
         }
         let last_of_token = i + 1 == chars.len() || labels[i + 1] != labels[i];
         if last_of_token {
